@@ -23,8 +23,19 @@ impl<F> DynamicTimeout<F> {
     pub fn new(f: F) -> (r: Self)
         ensures *r.f == f,   // #wraps_the_given_function [C06]
     //@body DynamicTimeout::new file=tlconfig
+    pub fn clone(&self) -> (r: Self)
+        ensures r.f == self.f,   // #a_cloned_timeout_source_uses_the_same_function [C06]
+    //@body DynamicTimeout::clone@Clone file=tlconfig
 }
+pub trait VClone: Sized { fn clone(&self) -> (r: Self) ensures r == *self; }
+impl Name { #[verifier::external_body] pub fn clone(&self) -> (r: Self) ensures r == *self { unimplemented!() } }
+impl EventListeners { #[verifier::external_body] pub fn clone(&self) -> (r: Self) ensures r == *self { unimplemented!() } }
 pub struct TimeLimiterConfig<T> { pub timeout_source: T, pub cancel_running_future: bool, pub event_listeners: EventListeners, pub name: Name }
+impl<T: VClone> TimeLimiterConfig<T> {
+    pub fn clone(&self) -> (r: Self)
+        ensures r == *self,   // #a_cloned_configuration_is_the_same_configuration [C06]
+    //@body TimeLimiterConfig::clone@Clone file=tlconfig
+}
 pub struct TimeLimiterLayer<T> { pub config: Arc<TimeLimiterConfig<T>> }
 impl<T> TimeLimiterLayer<T> {
     pub fn new(config: TimeLimiterConfig<T>) -> (r: Self)
